@@ -11,7 +11,7 @@ _root = None
 def scratch_root():
     global _root
     if _root is None or not os.path.isdir(_root):
-        _root = tempfile.mkdtemp(prefix="yowverif_")
+        _root = tempfile.mkdtemp(prefix="yowverif_%d_" % os.getpid())
         atexit.register(shutil.rmtree, _root, True)
     return _root
 
@@ -33,3 +33,16 @@ def cleanup():
     if _root:
         shutil.rmtree(_root, ignore_errors=True)
         _root = None
+
+
+def sweep(pids):
+    """remove scratch roots left behind by worker processes that had to be ended (their names carry the pid)"""
+    base = tempfile.gettempdir()
+    try:
+        names = os.listdir(base)
+    except OSError:
+        return
+    for n in names:
+        for pid in pids:
+            if n.startswith("yowverif_%d_" % pid):
+                shutil.rmtree(os.path.join(base, n), ignore_errors=True)
